@@ -13,6 +13,7 @@ the refinement `C01.refines : C01.refines_full` now holds for every history; the
 machine-checked on the pinned variant of the step (`C01.pinned_relink_miscredit`).
 -/
 import Uniflow.Proofs.WriterSim
+import Uniflow.Proofs.WriterGen
 import Uniflow.Model.Pump
 
 open Uniflow Uniflow.Writer Uniflow.WriterSpec Uniflow.WriterProofs
@@ -483,6 +484,84 @@ theorem C01.refines_relink_witness :
         (fun o => (o.ret, o.emits)) =
       [(.ok true, []), (.cnt 1, []), (.ok true, [.err [0]]), (.ok true, []), (.cnt 1, []), (.ok false, []),
        (.ok true, [.val 2])] := by decide
+
+/-- **Link generations are fresh** (every history): live links carry pairwise different generations,
+and every generation on record – of a live link, of a request a reader still holds, of a drop notice
+whose goroutine has not run yet, of an answer in flight between `Reader.Receive` and
+`(*Writer).receive` – is one `Link` has handed out before (`≤ linked`). -/
+theorem C01.link_generations_on_record (h : List Step) :
+    (Writer.run h).1.links.Nodup ∧ (∀ g ∈ (Writer.run h).1.links, g ≤ (Writer.run h).1.linked) ∧
+    (∀ r, ∀ e ∈ (Writer.run h).1.pend r, e.1 ≤ (Writer.run h).1.linked) ∧
+    (∀ r, ∀ e ∈ (Writer.run h).1.drops r, e.1 ≤ (Writer.run h).1.linked) ∧
+    (∀ r, ∀ e ∈ (Writer.run h).1.flight r, e.2.1 ≤ (Writer.run h).1.linked) :=
+  let g := genOK_run h
+  ⟨g.nodup, g.links, g.pend, g.drops, g.flight⟩
+
+/-- **A new link's generation is carried by nothing recorded before it** (every history, every reader):
+when `Link` succeeds after any history, the generation it hands out is `linked + 1`, and no live link,
+no request still held by any reader, no undelivered drop notice and no answer in flight carries it. A
+late answer over a removed link can therefore never pass the generation test of a later link of the
+same reader, however often the link flaps. -/
+theorem C01.new_link_generation_unused (h : List Step) (r : RId)
+    (hl : (Writer.step (Writer.run h).1 (.link r)).2.ret = .ok true) :
+    (Writer.step (Writer.run h).1 (.link r)).1.links = (Writer.run h).1.links ++ [(Writer.run h).1.linked + 1] ∧
+    (∀ g ∈ (Writer.run h).1.links, g ≠ (Writer.run h).1.linked + 1) ∧
+    (∀ r', ∀ e ∈ (Writer.run h).1.pend r', e.1 ≠ (Writer.run h).1.linked + 1) ∧
+    (∀ r', ∀ e ∈ (Writer.run h).1.drops r', e.1 ≠ (Writer.run h).1.linked + 1) ∧
+    (∀ r', ∀ e ∈ (Writer.run h).1.flight r', e.2.1 ≠ (Writer.run h).1.linked + 1) := by
+  have g := genOK_run h
+  refine ⟨?_, fun x hx => Nat.ne_of_lt (Nat.lt_succ_of_le (g.links x hx)),
+    fun r' e he => Nat.ne_of_lt (Nat.lt_succ_of_le (g.pend r' e he)),
+    fun r' e he => Nat.ne_of_lt (Nat.lt_succ_of_le (g.drops r' e he)),
+    fun r' e he => Nat.ne_of_lt (Nat.lt_succ_of_le (g.flight r' e he))⟩
+  revert hl
+  simp only [Writer.step, stepWith]
+  split
+  · intro hl; simp at hl
+  · split
+    · intro hl; simp at hl
+    · intro _; rfl
+
+/-- The hypothesis of `C01.new_link_generation_unused` is met by a reader that flaps: after
+`link 0 · write 1 · unlink 0` the next `link 0` succeeds, and the request of write 1 is still held. -/
+theorem C01.new_link_generation_unused_nonvacuous :
+    (Writer.step (Writer.run [.link 0, .write 1, .unlink 0]).1 (.link 0)).2.ret = .ok true ∧
+    (Writer.run [.link 0, .write 1, .unlink 0]).1.pend 0 = [(1, 0)] := by decide
+
+/-- **Write numbers are never re-used** (every history): every write number on record – with a request a
+reader still holds (or, once it has closed, with a drop notice not yet delivered), with an answer in
+flight – is smaller than the number the next accepted write gets. Together with
+`C01.new_link_generation_unused`: neither half of the pair (generation, write number) of an old request
+can come up again with a later link or a later write. -/
+theorem C01.write_numbers_on_record (h : List Step) :
+    (∀ r, ∀ e ∈ fifo (Writer.run h).1 r, e.2 < (Writer.run h).1.written) ∧
+    (∀ r, ∀ e ∈ (Writer.run h).1.flight r, e.2.2 < (Writer.run h).1.written) := by
+  have R := (sim_run rel_init h).2
+  refine ⟨fun r e he => ?_, fun r e he => ?_⟩
+  · have : e.2 ∈ (WriterSpec.run h).1.owed r := by
+      have hq := R.queue r
+      simp only [WriterSpec.run, Writer.run] at hq ⊢
+      rw [← hq]; exact List.mem_map_of_mem he
+    have := R.inv.owedLt r _ this
+    simpa [R.written, Writer.run, WriterSpec.run] using this
+  · have : (e.1, e.2.2) ∈ (WriterSpec.run h).1.flight r := by
+      have hq := R.flight r
+      simp only [WriterSpec.run, Writer.run] at hq ⊢
+      rw [← hq]; exact List.mem_map_of_mem (f := fun e => (e.1, e.2.2)) he
+    have := R.inv.flightLt r _ this
+    simpa [R.written, Writer.run, WriterSpec.run] using this
+
+/-- A link that flaps (a test on one history, labelled as such; the statement for all histories is
+`C01.refines`): the reader is linked three times with one write each and the writer is idle at
+every relink; each unlink answers the outstanding write with the dropped error; at the end the
+reader answers oldest first – both late answers are refused and emit nothing, write 3 gets its own
+answer. (Seeded change c01m: link generations taken from `written`, write numbers restarted when
+nothing is pending – the late answer to write 2 became the response to write 3.) -/
+theorem C01.flapping_link_witness :
+    (Writer.run [.link 0, .write 1, .unlink 0, .link 0, .write 2, .unlink 0, .link 0, .write 3,
+        .answer 0 (.val 1), .answer 0 (.val 2), .answer 0 (.val 3)]).2.map (fun o => (o.ret, o.emits)) =
+      [(.ok true, []), (.cnt 1, []), (.ok true, [.err [0]]), (.ok true, []), (.cnt 1, []), (.ok true, [.err [0]]),
+       (.ok true, []), (.cnt 1, []), (.ok false, []), (.ok false, []), (.ok true, [.val 3])] := by decide
 
 /-- The defect the link generations repair, kept machine-checked on the code as it was before
 (`stepPinned`: `receive` without the generation test): unlink with a request outstanding, re-link,
